@@ -265,6 +265,9 @@ fn tower_layer(ctx: &mut Ctx) {
                 if a.is_zero() != (mask == 15) {
                     k.ctx.violation("Fp4::is_zero:wrong", inp());
                 }
+                if (a == b) != (ca == cb) || a != a.fp_add(&Fp4::zero()) || e_f4(&a.fp_mul(&Fp4::one())) != ea {
+                    k.ctx.violation("Fp4::eq/one/zero:wrong", inp());
+                }
             }
         }
     }
@@ -332,6 +335,9 @@ fn tower_layer(ctx: &mut Ctx) {
             if a.is_zero() != (mask == 4095) {
                 k.ctx.violation("Fp12::is_zero:wrong", inp());
             }
+            if (a == b) != (ca == cb) || a != a.fp_add(&Fp12::zero()) || e_f12(&a.fp_mul(&Fp12::one())) != ea {
+                k.ctx.violation("Fp12::eq/one/zero:wrong", inp());
+            }
             let tb = a.to_bytes_be();
             if tb != r9::f12bytes(&ea) {
                 k.ctx.violation("Fp12::to_bytes_be:wrong-order-or-value", inp());
@@ -378,6 +384,46 @@ fn modn_layer(ctx: &mut Ctx) {
                 o => ctx.violation(&format!("{}:{}", op, o.class()), json!({"a": hl(&la), "b": hl(&lb), "outcome": format!("{:?}", o)})),
             }
         };
+        // raw limb primitives of gm-sm9 on the same operands
+        {
+            use gm_sm9::u256::*;
+            ctx.eval();
+            ctx.class("sm9_u256_primitives");
+            let two256: BigUint = BigUint::one() << 256;
+            let (s4, c4) = u256_add(&la, &lb);
+            let (d4, b4) = u256_sub(&la, &lb);
+            if r9::from_limbs(&s4) != (&a + &b) % &two256 || c4 != (&a + &b >= two256) || r9::from_limbs(&d4) != (&two256 + &a - &b) % &two256 || b4 != (a < b) {
+                ctx.violation("sm9.u256_add/sub:wrong", json!({"a": hl(&la), "b": hl(&lb)}));
+            }
+            let m8 = u256_mul(&la, &lb);
+            let big8 = |x: &[u64; 8]| -> BigUint {
+                let mut v = BigUint::zero();
+                for k in (0..8).rev() {
+                    v = (v << 64) + x[k];
+                }
+                v
+            };
+            if big8(&m8) != &a * &b {
+                ctx.violation("sm9.u256_mul:wrong", json!({"a": hl(&la), "b": hl(&lb)}));
+            }
+            let x8: [u64; 8] = [la[0], la[1], la[2], la[3], lb[0], lb[1], lb[2], lb[3]];
+            let y8: [u64; 8] = [lb[0], lb[1], lb[2], lb[3], m8[4], m8[5], m8[6], m8[7]];
+            let two512: BigUint = BigUint::one() << 512;
+            let (s8, c8) = u512_add(&x8, &y8);
+            let (d8, b8) = u512_sub(&x8, &y8);
+            let (xv, yv) = (big8(&x8), big8(&y8));
+            if big8(&s8) != (&xv + &yv) % &two512 || c8 != (&xv + &yv >= two512) || big8(&d8) != (&two512 + &xv - &yv) % &two512 || b8 != (xv < yv) {
+                ctx.violation("sm9.u512_add/sub:wrong", json!({"a": hl(&la), "b": hl(&lb)}));
+            }
+            let cmp = u256_cmp(&la, &lb);
+            if cmp != if a > b { 1 } else if a < b { -1 } else { 0 } {
+                ctx.violation("sm9.u256_cmp:wrong", json!({"a": hl(&la), "b": hl(&lb)}));
+            }
+            let bits = u256_to_bits(la);
+            if (0..256).any(|k| (bits[k] == '1') != a.bit(255 - k as u64)) || u256_to_be_bytes(&la) != r9::b32(&a) || u256_from_be_bytes(&r9::b32(&a)) != la {
+                ctx.violation("sm9.u256_to_bits/bytes:wrong", json!({"a": hl(&la)}));
+            }
+        }
         chk(ctx, "mod_n_add", guard(|| gm_sm9::fields::mod_n_add(&la, &lb)), (&a + &b) % n);
         chk(ctx, "mod_n_sub", guard(|| gm_sm9::fields::mod_n_sub(&la, &lb)), (&a + n - &b) % n);
         chk(ctx, "mod_n_mul", guard(|| gm_sm9::fields::mod_n_mul(&la, &lb)), (&a * &b) % n);
@@ -747,7 +793,7 @@ pub fn run(ctx: &mut Ctx) {
     ctx.require(&[
         "Fp::fp_mul", "Fp::fp_inv", "Fp::fp_div2", "fp_pow", "Fp2::fp_mul", "Fp2::fp_inv", "Fp2::fp_sqr", "Fp2::sqr_u", "Fp2::fp_mul_u", "fp2_zero_mask=1", "fp2_zero_mask=2", "Fp4::fp_mul", "Fp4::fp_inv", "Fp4::fp_mul_v", "Fp4::sqr_v", "fp4_zero_mask=05", "fp4_zero_mask=10",
         "Fp12::fp_mul", "Fp12::fp_sqr", "Fp12::fp_inv", "Fp12::frobenius^1", "Fp12::frobenius^2", "Fp12::frobenius^3", "Fp12::frobenius^6", "Fp12::fp_line_mul", "Fp12::pow", "Fp12::final_exponent", "fp12_zero_subset", "fp12_c2_zero_branch",
-        "mod_n_add", "mod_n_sub", "mod_n_mul", "mod_n_inv", "mod_n_pow", "booth_w5", "booth_w7", "booth_recomposition", "table_entry", "table_scalar", "table_scalar_negated",
+        "sm9_u256_primitives", "mod_n_add", "mod_n_sub", "mod_n_mul", "mod_n_inv", "mod_n_pow", "booth_w5", "booth_w7", "booth_recomposition", "table_entry", "table_scalar", "table_scalar_negated",
         "G1::point_add", "G1::point_double", "G1::point_mul", "G1::g_mul", "G1::point_equals", "G1::is_on_curve", "G2::point_add", "G2::twist_point_add_full", "G2::point_double", "G2::point_mul", "G2::g_mul", "G2::point_equals", "G2::point_pi1",
         "P_eq_Q_diff_Z", "P_eq_negQ_diff_Z", "P_ne_Q_rhs_Z!=1", "consecutive_negated_base", "consecutive_same_point_other_Z", "infinity_arbitrary_XY", "k=0", "k=N", "k=N+1", "k=2^256-1", "k=random", "k=sparse_limbs", "pow_sparse_exponent", "G1::infinity_equals_infinity",
     ]);
